@@ -226,7 +226,7 @@ def run(ctx):
     ctx.finish_rule()
 
     # ------------------------------------------------------------------ R4
-    ctx.rule("C05.R4", "every loop on the assembler path consumes input", floor=9)
+    ctx.rule("C05.R4", "every loop on the assembler path consumes input", floor=6)
     scope = [n for n in L.reach]
     M = must_consume(ctx, scope)
     nloops = 0
@@ -244,6 +244,10 @@ def run(ctx):
             if not ok:
                 ctx.violation("loop-no-consumer|fn=%s" % short(n), sp_file_line(f.term(h).get("sp")),
                               "a loop in `%s` has a cycle that consumes no input (no iterator advance / cursor bump on it): a possible livelock on some text" % short(n))
+    # the statement loops themselves cannot be written away; the inner ones (n words of .blkw, the characters of a string) can become iterator chains
+    looped = {n for n in scope if kit.loops(prog.fns[n])}
+    for must in ("lace::parser::preprocess", "lace::parser::AsmParser::parse"):
+        ctx.need(must in looped, "the statement loop of %s" % short(must))
     ctx.note("%d loops in %d functions; must-consume functions: %s" % (nloops, len(scope), sorted(short(m) for m in M)[:12]))
     # recursion is a loop too, and one whose depth is bounded by the stack, not by the input: none on the assembler path
     ctx.instance(1)
